@@ -541,6 +541,37 @@ func TestC11Sets(t *testing.T) {
 			}
 		}
 
+		// ---- second round: the same glyph objects with their bounding boxes
+		// edited in place are encoded again (an encoder that remembers a
+		// glyph it has seen is stale now)
+		if rapid.Bool().Draw(t, "secondRound") {
+			edited := 0
+			for _, m := range distinct {
+				if m.g.XMin < 32767 {
+					m.g.XMin++
+					libOf[m].Rect16.LLx++
+					edited++
+				}
+			}
+			if edited > 0 {
+				if pn := guard.Try(func() { enc = gs.Encode() }); pn != nil {
+					fail(-1, "second Glyphs.Encode after in-place edits: %s", pn)
+				}
+				if info, msg = checkEncoded(enc, set); msg != "" {
+					fail(-1, "second Glyphs.Encode after in-place edits: %s", msg)
+				}
+				if pn := guard.Try(func() { back, err = glyf.Decode(enc) }); pn != nil || err != nil {
+					fail(-1, "Decode(second Encode): %v %v", err, pn)
+				}
+				for i, m := range set {
+					if msg := cmpLib(back[i], m); msg != "" {
+						fail(i, "second round (bounding boxes edited in place): Decode(Encode(gs)) glyph %d: %s", i, msg)
+					}
+				}
+				labels.add("second-round-after-in-place-edit")
+			}
+		}
+
 		// ---- bytes direction: reference encoder → Decode → Encode
 		plan, gd, ld := genBytesPlan(t, s)
 		in := &glyf.Encoded{GlyfData: gd, LocaData: ld, LocaFormat: int16(plan.format)}
